@@ -14,19 +14,19 @@ CHECKS = {
         text="For every generated/hand-written bounded program whose whole schedule tree was enumerated on the real runtime, every outcome the sequential reference model requires was observed; misses are reported with the op kind whose missing choice point explains them. Exploration level: the quantifier over programs is sampled, the one over schedules is exhausted per program.",
         ref="DESIGN.md §4 C02", note=MODEL_NOTE),
     "C03": dict(
-        technique="runtime monitoring: termination kind and blocked-task set of every observed execution (panic payload of Runner::run) checked against the termination the reference model allows; enumeration + random/PCT sampling of deadlock-prone programs",
+        technique="runtime monitoring: termination kind and blocked-task set of every observed execution (panic payload of Runner::run) checked against the termination the reference model allows; enumeration + random/PCT sampling of deadlock-prone programs; per-execution trace conformance incl. the exact blocked set at a deadlock; park programs also enumerated without spurious wake-ups",
         text="Every observed execution of deadlock-prone bounded programs ended the way the model allows (pass / deadlock naming exactly the unfinished tasks / diagnosed panic); no hang (step bound) was seen.",
         ref="DESIGN.md §4 C03", note=MODEL_NOTE),
     "C04": dict(
-        technique="runtime monitoring: shadow holder sets asserted at every acquisition, per-execution outcome membership in the reference model's allowed set, re-entrancy corpus; enumeration + random/PCT sampling",
+        technique="runtime monitoring: shadow holder sets asserted at every acquisition, per-execution outcome membership in the reference model's allowed set, re-entrancy corpus; enumeration + random/PCT sampling; per-execution trace conformance (interval linearizability of the call/return log against the model, blocking operations included); poisoning scenarios with panics caught inside the holder, every schedule",
         text="On every observed execution of lock/atomic programs: exclusion held at each acquisition (shadow state), try-ops and atomic results were ones the sequential model allows, re-entrant attempts failed or were diagnosed.",
         ref="DESIGN.md §4 C04", note=MODEL_NOTE),
     "C05": dict(
-        technique="runtime monitoring: outcome membership (incl. lost wake-ups seen as deadlocks the model does not allow) for condvar/barrier/once/park programs under enumeration and sampling, park programs additionally enumerated over the schedules without spurious wake-ups against the model without them; corpus of hostile shapes (epoch scenario, reused barrier, double unpark)",
+        technique="runtime monitoring: outcome membership (incl. lost wake-ups seen as deadlocks the model does not allow) for condvar/barrier/once/park programs under enumeration and sampling, park programs additionally enumerated over the schedules without spurious wake-ups against the model without them; corpus of hostile shapes (epoch scenario, reused barrier, double unpark); per-execution trace conformance (each wait return must be explained by a notification inside its call/return interval)",
         text="Every observed execution of condvar/barrier/once/park programs produced results and a termination the model allows (no invented or lost wake-up, one leader per generation, one initializer).",
         ref="DESIGN.md §4 C05", note=MODEL_NOTE),
     "C06": dict(
-        technique="runtime monitoring: unique message ids, outcome membership against a FIFO channel model with capacity/rendezvous/disconnection rules, under enumeration and sampling",
+        technique="runtime monitoring: unique message ids, outcome membership against a FIFO channel model with capacity/rendezvous/disconnection rules, under enumeration and sampling; per-execution trace conformance; disconnection scenarios in which an endpoint is dropped by a panic caught inside its task",
         text="Every observed execution of channel programs (unbounded, bounded 1-2, rendezvous; try-ops; explicit endpoint drops) delivered each message once and in order within capacity, and blocked/failed exactly as the model allows.",
         ref="DESIGN.md §4 C06", note=MODEL_NOTE),
 }
